@@ -79,6 +79,17 @@ def constant_fold_expr(expr: Expression, cur_mod_id: str) -> ConstantValue | Non
 def constant_fold_binary_op(
     op: str, left: ConstantValue, right: ConstantValue
 ) -> ConstantValue | None:
+    try:
+        return _constant_fold_binary_op(op, left, right)
+    except (OverflowError, MemoryError):
+        # The result cannot be computed or represented here (e.g. 1 << 2**62, "" * 2**63,
+        # 10**400 / 1): don't fold, the operation will fail (or not) at run time.
+        return None
+
+
+def _constant_fold_binary_op(
+    op: str, left: ConstantValue, right: ConstantValue
+) -> ConstantValue | None:
     if isinstance(left, int) and isinstance(right, int):
         return constant_fold_binary_int_op(op, left, right)
 
